@@ -109,7 +109,16 @@ pub fn judge(input: &[u8], with_display: bool) -> (&'static str, Vec<(Which, &'s
         }
         (Err(e), Ok(sm)) => {
             out.push((Which::C05, "accepts-invalid", format!("reference says {:?}, subject accepts {:?}", e, summarize(&subject_fields(sm)))));
-            // still check values / display for C06
+            // C06 (independent of whether the message should have been accepted): the values of an
+            // accepted non-empty message are exactly the input bytes that follow its header
+            let nf = sm.tags().len();
+            if nf > 0 {
+                let hl = codec::header_len(nf);
+                let cat: Vec<u8> = sm.values().iter().flat_map(|v| v.iter().copied()).collect();
+                if cat != input[hl.min(input.len())..] {
+                    out.push((Which::C06, "values-not-input-bytes", format!("accepted {} fields whose values ({} bytes) are not the {} input bytes after the header", nf, cat.len(), input.len().saturating_sub(hl))));
+                }
+            }
             "disagree"
         }
     };
